@@ -200,7 +200,9 @@ class Wikicode(StringMixIn):
                 node = context.get(i)
                 if obj.get(-1) == node:
                     for j in range(-len(obj.nodes), -1):
-                        if obj.get(j) != context.get(i + j + 1):
+                        # Not enough nodes before this one: cannot be a match
+                        # (and a negative index would wrap around the list)
+                        if i + j + 1 < 0 or obj.get(j) != context.get(i + j + 1):
                             break
                     else:
                         i -= len(obj.nodes) - 1
